@@ -776,3 +776,12 @@ mod test {
         huffman::decode(src, &mut buf).unwrap()
     }
 }
+
+// ===== verification hooks (add-only, feature-gated) =====
+
+#[cfg(feature = "hyperium_h2_verif")]
+pub(crate) fn verif_encode_int(value: usize, prefix_bits: usize, first_byte: u8) -> Vec<u8> {
+    let mut dst = BytesMut::new();
+    encode_int(value, prefix_bits, first_byte, &mut dst);
+    dst.to_vec()
+}
